@@ -44,7 +44,7 @@ RULE = ("histories over %d symbolic operations (append/insert/delete by index an
         "short name lists and DataFrames, each with an untouched partner LASFile. After the last operation of every "
         "exhaustive history and after every operation of a random history all views (curves, keys, values, items, "
         "index, data, [int], [mnemonic]) are compared with the list model. distinct = distinct sequence of "
-        "(operation kind, resolved position) ; non-trivial = history with >= 2 operations that leaves >= 2 curves Added later: index together with a mnemonic (update / delete), falsy and numeric curve metadata, names of several shapes, move-to-end and aliasing of arrays, arrays without samples, list / tuple / strided / Fortran-ordered array arguments, numpy-integer positions."
+        "(operation kind, resolved position) ; non-trivial = history with >= 2 operations that leaves >= 2 curves Added later: index together with a mnemonic (update / delete), falsy and numeric curve metadata, names of several shapes, move-to-end and aliasing of arrays, arrays without samples, list / tuple / strided / Fortran-ordered array arguments, numpy-integer positions. Round 8: histories on a log of one depth step."
         % len(OPS))
 ASSUMPTIONS = [
     "session names (keys) are predicted by the model with the documented rule: renumbered :1..:n in order after each insertion and after set_data, left alone by deletions and updates",
@@ -96,6 +96,10 @@ def grid(tier):
         for seq in ([("set_data", "empty_wider", None, False)], [("append", "new"), ("append", "new"), ("set_data", "empty_wider", None, False), ("append", "new")],
                     [("set_data", "empty_wider", None, True), ("set_data", "wider", None, False)]):
             yield {"kind": "ops", "ops": [list(o) for o in seq], "start": start}
+    for n in range(1, 3):                  # the single operations and pairs again on a one-sample log
+        for pre in itertools.product(range(len(OPS)), repeat=n):
+            if n == 1 or (pre[0] + 7 * pre[1]) % 5 == 0:
+                yield {"kind": "ops", "ops": [list(OPS[i]) for i in pre], "start": "fresh1"}
     setup_ops = [("append", "new"), ("append", "new"), ("append", "dup"), ("append", "new")]
     for start in ("fresh", "read"):        # an index together with a mnemonic that names another (or no) curve
         for both in [o for o in RANDOM_EXTRA if o[0] in ("update_both", "delete_both")]:
@@ -110,7 +114,7 @@ def n_random(tier):
 def random_case(rng, tier):
     allops = OPS + RANDOM_EXTRA
     return {"kind": "ops", "ops": [list(rng.choice(allops)) for _ in range(rng.randint(5, 30))],
-            "start": rng.choice(["fresh", "read"])}
+            "start": rng.choice(["fresh", "read", "fresh", "read", "fresh1"])}
 
 
 NEW_NAME_SHAPES = ["N%d", "N%d", "_n%d", "N %d", "Ñ%d", "%d", "n%d", "N-%d", "N%d"]      # new (unique) names of several shapes
@@ -162,7 +166,9 @@ class Run:
         self.m.snapshot_from(self.las)
         self.partner_snap = canon.clas(self.partner)
         self.k = 0          # operation counter -> unique sample values
-        self.nrows = NROWS
+        self.nrows = 1 if start == "fresh1" else NROWS      # "fresh1": a log of one depth step - every curve is a 1-D array of length 1
+        if start == "fresh1":
+            ctx.count("histories_on_one_sample_logs")
         self.newnames = 0
 
     # -- helpers -----------------------------------------------------------------------------
